@@ -11,10 +11,7 @@ LEVEL = 'other'
 def run(run, scr, tier, seed, only=None):
     run.assumptions += skelprops.TRUSTED + ['NOT decided: collision resistance of SHAKE256 and the lattice statement that a different z cannot produce the same w1\' for the honest A',
                                              'hint-section strictness (every byte string either rejected or decoded to a distinct h; re-encoding reproduces the bytes) and bijectivity of the coefficient codecs are C08 obligations']
-    e1 = [Harness('verif_kani::c01::c01_use_hint_flips', 'C05', timeout=900, bounds='every r in Z_q, both gamma2: UseHint(1,r) != UseHint(0,r)'),
-          # strict hint decoding leaves no slack byte: the window that covers the last position bytes / padding (K=2, omega=8)
-          Harness('verif_kani::c08::c08_hint_window_4', 'C05', timeout=2400, loop_rules=[(r'hint_bit_unpack::<2>', 12)],
-                  bounds='hint_bit_unpack::<2>(omega=8): both count bytes and the last four position bytes symbolic; accept/reject and decoded hint equal Algorithm 21')]
+    e1 = [Harness('verif_kani::c01::c01_use_hint_flips', 'C05', timeout=900, bounds='every r in Z_q, both gamma2: UseHint(1,r) != UseHint(0,r)')]
     skelprops.run_prop(run, scr, tier, seed, 'C05', e1=e1, diff=('verify',), diff_load=(2, 10), only=only)
     expl = ('Bit relevance only: (a) verify_internal feeds every part of the decoded signature into the decision - c~ into SampleInBall and the final comparison, z into NTT/norm, h into UseHint (skeleton obligations); '
             '(b) every public-key byte reaches rho (ExpandA) or t1 and, through tr = H(pk), the message representative (expand_public skeleton); (c) message and context enter mu through an injective formatting (C06); '
